@@ -26,8 +26,8 @@ CLAIMED = {
         "text": "Bounded-exhaustive over labelled inputs: quick <=3 object x <=2 species leaves x all 15 arrangements of <=3 families "
                 "(tuples up to family renaming where the menu is closed under renaming, restricted menus in full; inconsistent orders kept) + prescribed root orders; thorough adds <=3x<=3x3 families, "
                 "4x<=3x2 families, 4x<=2x subsequences of abc, each with its coherent cost menu, ext_spfs and base_spfs, ALL and ANY. "
-                "quick also 4-leaf chains on one species x subsequences of abc, 5-leaf chains on one species x {ac, bc, abc, b} with dup = 0, FOUR families (every tuple of subsequences of abcd on 3 leaves; {a, d, abd, acd, abcd} on the three 5-leaf shapes), one family on 4x2 and 4x4 leaves with transfers at 3-6 times the unit price, prescribed roots with a family no leaf carries, hgt = 0, and session "
-                "slices (one input object updated in place, with and without a prescribed root). Input presentation varies with the input: leaf "
+                "quick also 4-leaf chains on one species x subsequences of abc, 5-leaf chains on one species x {ac, bc, abc, b} with dup = 0, FOUR families (every tuple of subsequences of abcd on 3 leaves; {a, d, abd, acd, abcd} on the three 5-leaf shapes), one family on 4x2 and 4x4 leaves with transfers at 3-6 times the unit price and on 4x3 leaves at the default prices, six loosely constrained families with 120 compatible root orders, prescribed roots with a family no leaf carries, hgt = 0, and session "
+                "slices (one input object updated in place, with and without a prescribed root). On one input in three the other solvers run on the same input object before the solve, or after it (what was returned must still cost the same). Input presentation varies with the input: leaf "
                 "dictionaries in three orders, syntenies typed as lists / tuples, prefix-related multi-character family names, same-label ancestors. "
                 "Oracle: Bellman over (species, subsequence) for every compatible root order; base: LCA mapping fixed.",
         "design_ref": "6 (C02), 4.2-4.4, 5",
@@ -125,7 +125,7 @@ CLAIMED = {
                 "(quick O3x2x3; thorough O3x3x3, O4x3x2) and on every single-family labelling of the P-slices (quick P4x3; thorough P4x4, 5x<=3), "
                 "coherent cost menu (with hgt < dup and hgt = 0), both policies: ext <= base, unordered <= ordered, thl <= lca (= at hgt=inf), single family: ext_spfs = superdtl = thl and "
                 "base_spfs = base_uspfs = lca; plus thl <= lca on 3-leaf objects over 6-leaf species trees, thl = superdtl on 5-leaf single-family "
-                "inputs at hgt = 2*dup, 4- and 5-leaf chains on one species; 4x3 leaves with singleton families at hgt 2 / sloss 1-2.",
+                "inputs at hgt = 2*dup, 4- and 5-leaf chains on one species; 4x3 leaves with singleton families at hgt 2 / sloss 1-2; unit costs 10^10 apart; plain inputs whose costs are edited in place through a five-step history.",
         "design_ref": "6 (C10)",
         "note": "No oracle: compares the implementations' own cost() values (C06 validates those). Coherent cost region only.",
         "technique": "bounded-exhaustive enumeration of inputs x configurations with differential (cross-algorithm) oracle",
@@ -138,7 +138,7 @@ CLAIMED = {
                 "(all subsets of <=3 object / <=2 species nodes on small trees, root and nested colours) and a float-infinite transfer cost; trees, "
                 "mappings, syntenies, flag, events, cost compared, and to_dict() of the copy reproduced verbatim on the listed fields; every object is "
                 "serialised a second time after an in-place edit of its trees and costs; multifurcating inputs (<= 4 / 5 leaves) for child order; "
-                "unordered labellings also typed as unsorted lists; a parent and child with the same colour; explicit zero costs; every text is read a second time after the first copy was edited in place; ordered inputs also with a prescribed root order (an entry for the root in leaf_syntenies).",
+                "unordered labellings also typed as unsorted lists; a parent and child with the same colour; explicit zero costs; every text is read a second time after the first copy was edited in place; ordered inputs also with a prescribed root order (an entry for the root in leaf_syntenies); the dictionary handed to from_dict must come back unchanged; colours spelled upper-case, lower-case and with a leading '#'.",
         "design_ref": "6 (C11)",
         "note": "Premise: unique node names. The embedded input's leaf_syntenies of an output is outside the listed fields and not compared.",
         "technique": TECH_E2,
@@ -190,7 +190,7 @@ CLAIMED = {
         "text": "Same reconciliations x every colouring of a menu (none, root, inner, every nested pair, explicit black inside / around a colour, leaf, two subtrees, three levels) with "
                 "labelling / naming scheme (underscores, backslashes, leaf names with an empty index) / orientation / top-down or bottom-up mapping dicts rotating: scanner for balanced braces, single picture, terminated "
                 "\\path/\\node statements, colours defined before use; colour of every event node and loss marker (layout and text) = nearest coloured "
-                "ancestor-or-self; escaped names; synteny labels list the node's families (also multi-character families whose lists concatenate to the same text), omitted iff equal to the parent's. Wrapper: all word lists "
+                "ancestor-or-self; escaped names; the reconciliation handed to the renderer must come back unchanged; synteny labels list the node's families (also multi-character families whose lists concatenate to the same text), omitted iff equal to the parent's. Wrapper: all word lists "
                 "of <=5 (6) words over 4 (5) lengths x widths 1..30 and syntenies of <=12 families against greedy wrapping.",
         "design_ref": "6 (C15)",
         "note": "Family names contain no backslash (a doubled backslash in a label is a TeX line break and would be ambiguous to un-wrap).",
@@ -199,7 +199,7 @@ CLAIMED = {
     "C16": {
         "category": "model_checking",
         "text": "Explicit-state BFS over all reachable states of real Entry objects and table cells (1-3 dimensional, "
-                "Dict and List dimensions incl. two leading List dimensions, fresh and pre-initialised, with a cell handle kept from before the first write) under every batch of <=2 (quick) / <=3 (thorough) "
+                "Dict and List dimensions incl. two leading List dimensions, fresh and pre-initialised, with a cell handle kept from before the first write; every table is the second one built from the same list of dimensions) under every batch of <=2 (quick) / <=3 (thorough) "
                 "candidates over {0,1,2}x{None,a,b}, for the 2x3 policy pairs (also entries copied from another entry through the (value, infos) constructor), with the reference (optimum, optimal-tag set) "
                 "run in lock-step; every pair of reachable entry states combined under 8 combinators (three with tag-dependent values, one that returns untagged candidates), each pair also with the left / right / both operands living in table cells; all histories of "
                 "depth 4 (quick) / 5 (thorough) in every batch split replayed on fresh objects. Exhaustive within those bounds.",
@@ -221,7 +221,7 @@ CLAIMED = {
         "category": "exploration",
         "text": "Exhaustive over all (child != 0, parent) mask pairs up to 11 (quick) / 13 (thorough) bits x both end modes against an independent "
                 "run counter, and all sequences of distinct elements up to length 11 / 13 with all their subsequences (six element alphabets: ints, strings, "
-                "unhashable lists, elements equal under str() but distinct under ==, elements with one common hash and text) for the mask <-> subsequence round trip, also with subsequence and parent given as different kinds of sequence (tuple / list / str / range); a str child against parents holding concatenations of earlier elements, deque parents (no slicing); one mutable parent sequence rearranged in place through every permutation (<= 6 / 7 elements).",
+                "unhashable lists, elements equal under str() but distinct under ==, elements with one common hash and text) for the mask <-> subsequence round trip (the returned list is edited and re-encoded; it must not be the caller's parent), also with subsequence and parent given as different kinds of sequence (tuple / list / str / range); a str child against parents holding concatenations of earlier elements, deque parents (no slicing); one mutable parent sequence rearranged in place through every permutation (<= 6 / 7 elements).",
         "design_ref": "6 (C18)",
         "note": "Trusted: refmodel/graphs.py:lost_runs_mask.",
         "technique": TECH_E2,
@@ -242,7 +242,7 @@ CLAIMED = {
                 "fixpoint thorough), real (parent, rank, groups) paired with the naive partition, find/len/to_list/unite result/binary() checked in "
                 "every state, each transition replayed on a fresh object. Triples/supertrees: exhaustive over all labelled binary trees on <= 5 (6) "
                 "leaves, all 4096 subsets of the triples on 4 leaves (and <= 3 triples on 5 leaves), all pairs of binary trees on overlapping leaf "
-                "sets within 5 labels (also passed as a generator / map object); ancestors unnamed, freshly named, same-labelled or named like a leaf; leaf labels with Newick-special characters (tree built through the API); every returned ete3 tree is checked for consistent parent / child links and for sharing no node object with another result.",
+                "sets within 5 labels (also passed as a generator / map object, and with the second tree's children written in the opposite order); ancestors unnamed, freshly named, same-labelled or named like a leaf; leaf labels with Newick-special characters (tree built through the API); every returned ete3 tree is checked for consistent parent / child links and for sharing no node object with another result.",
         "design_ref": "6 (C20), 3 (E1 explorer)",
         "note": "Trusted: refmodel/graphs.py (clade-based display test, two-block coarsenings), ete3.",
         "technique": TECH_E1 + "; bounded-exhaustive enumeration of trees and triple sets for the triple routines",
